@@ -47,7 +47,11 @@ func selftest() int {
 	st3, st4 := famState(3), famState(4)
 	ids := famIds(2, 1, 3)
 	full2 := famFull(2)
-	chains := with(famGraph(3, 0, 5), func(m *SeqModel) { m.Extras = []string{"chains", "badid"}; m.StateArgs = nil; m.CmdNames = []string{"new_task", "sequence"} })
+	chains := with(famGraph(3, 0, 5), func(m *SeqModel) {
+		m.Extras = []string{"chains", "badid"}
+		m.StateArgs = nil
+		m.CmdNames = []string{"new_task", "sequence"}
+	})
 	g6 := with(famGraph(2, 2, 6), func(m *SeqModel) { m.StateArgs = nil; m.CmdNames = []string{"new_task", "new_epic", "sequence"} })
 	cases := []devCase{
 		{Dev: "D1", Seq: &st4, Props: []string{"P_C06"}}, {Dev: "D2", Seq: &st4, Props: []string{"P_C06"}},
